@@ -29,6 +29,7 @@ if of_01.deferredSender is None:
 
 REPO = os.path.realpath(poxenv.REPO)
 RAISE_XID = 66
+RAISE_SET = set()     # further xids whose handler fails (set by the C02 adapter)
 BUDGET = 200000
 
 
@@ -183,7 +184,7 @@ class ControllerLoop(object):
       harness.cons[name] = con
       def rec(c, m, nm=name):
         harness.delivered[nm].append((m.header_type, m.xid, m.pack()))
-        if m.xid == RAISE_XID:
+        if m.xid == RAISE_XID or m.xid in RAISE_SET:
           raise RuntimeError("handler failure (scripted)")
       con.handlers = [rec] * 256
     of_01.Connection.__init__ = con_init
@@ -280,7 +281,7 @@ class SwitchLoop(object):
         c = swmod.OFConnection(worker)
         def rec(con, m, nm=nm):
           self.delivered[nm].append((m.header_type, m.xid, m.pack()))
-          if m.xid == RAISE_XID:
+          if m.xid == RAISE_XID or m.xid in RAISE_SET:
             raise RuntimeError("handler failure (scripted)")
         c.set_message_handler(rec)
         self.ofcons[nm] = c
@@ -417,6 +418,20 @@ def corrupt(side, kind, xid, fault, param=0):
 
   def setlen(v):
     g[2:4] = rb.struct.pack("!H", v & 0xffff)
+  if "+" in fault:                    # two fields of the same header: version/type, then the length
+    first, second = fault.split("+")
+    c = corrupt(side, kind, xid, second, param)
+    if c is None:
+      return None
+    h = bytearray(c[0])
+    if first == "BAD_VERSION":
+      h[0] = (0x04, 0x00, 0xff, 0x02)[(param // 4) % 4]
+    elif first == "TYPE_UNKNOWN":
+      h[1] = (22, 0xff, 23, 0x7f)[(param // 4) % 4]
+    else:
+      raise ValueError(fault)
+    # with an unknown type there is no "fixed part" the length could fall short of
+    return bytes(h), c[1], (False if first == "TYPE_UNKNOWN" and c[2] == "short" else c[2])
   if fault in ("OK", "HANDLER_RAISES"):
     return bytes(g), n, True
   if fault == "MUTATED":              # param seeds 1-3 random byte changes of a valid message
@@ -466,5 +481,8 @@ def corrupt(side, kind, xid, fault, param=0):
   raise ValueError(fault)
 
 
+COMPOUND = ["BAD_VERSION+LEN_LT_8", "TYPE_UNKNOWN+LEN_LT_8", "BAD_VERSION+LEN_GT_ACTUAL", "TYPE_UNKNOWN+LEN_GT_ACTUAL",
+            "BAD_VERSION+LEN_LT_NEEDED", "TYPE_UNKNOWN+LEN_LT_NEEDED"]
+HEADER_FAULTS = ["BAD_VERSION", "TYPE_UNKNOWN", "LEN_LT_8", "LEN_LT_NEEDED", "LEN_GT_ACTUAL"]
 FAULTS = ["HANDLER_RAISES", "BAD_VERSION", "TYPE_UNKNOWN", "TYPE_WRONG_DIR", "LEN_LT_8", "LEN_LT_NEEDED", "LEN_GT_ACTUAL",
           "INNER_LEN_BAD", "TRUNCATED"]
